@@ -121,6 +121,7 @@ func (r *ReferenceRecord) IsInRange() bool {
 }
 
 type FieldIndexCache struct {
+	mtx             sync.RWMutex
 	limitToUseSlice int
 	m               map[parser.QueryExpression]int
 	exprs           []parser.QueryExpression
@@ -137,6 +138,9 @@ func NewFieldIndexCache(initCap int, limitToUseSlice int) *FieldIndexCache {
 }
 
 func (c *FieldIndexCache) Get(expr parser.QueryExpression) (int, bool) {
+	c.mtx.RLock()
+	defer c.mtx.RUnlock()
+
 	if c.m != nil {
 		idx, ok := c.m[expr]
 		return idx, ok
@@ -151,6 +155,9 @@ func (c *FieldIndexCache) Get(expr parser.QueryExpression) (int, bool) {
 }
 
 func (c *FieldIndexCache) Add(expr parser.QueryExpression, idx int) {
+	c.mtx.Lock()
+	defer c.mtx.Unlock()
+
 	if c.m == nil && c.limitToUseSlice <= len(c.exprs) {
 		c.m = make(map[parser.QueryExpression]int, c.limitToUseSlice*2)
 		for i := range c.exprs {
